@@ -15,7 +15,8 @@
 (***************************************************************************)
 EXTENDS Naturals, FiniteSets, TLC
 
-CONSTANTS Stores, AlgOf, Contents, Dig, Paths, OnePath, MaxSteps
+CONSTANTS Stores, LocalStores, AlgOf, Contents, Dig, Paths, OnePath, MaxSteps
+\* LocalStores = the stores of the local class (they protect what they hold; the generic class does not);
 \* AlgOf[s] = the algorithm of store s; Dig[a][c] = digest of c under a; Paths = workspace files (one directory);
 \* OnePath = the file that is also added on its own (build() of a file rather than a directory)
 
@@ -44,11 +45,12 @@ AddPairs(s, cand) ==
     IN \E f \in [fresh -> Contents] :
           /\ \A n \in fresh : <<n, f[n]>> \in cand
           /\ store' = [store EXCEPT ![s] = @ \cup {<<n, f[n]>> : n \in fresh}]
-          /\ prot' = [prot EXCEPT ![s] = @ \cup fresh]
+          /\ prot' = [prot EXCEPT ![s] = IF s \in LocalStores THEN @ \cup fresh ELSE @]
 
 \* build(odb_s, workspace) + transfer(staging -> s): every file is filed under Staged(p, AlgOf[s]);
 \* index.save does the same through hash_file(); upload staging hashes the bytes while it copies them (md5 stores
-\* only) and does not consult the cache for the name; "file" stages the single file OnePath
+\* only) and does not consult the cache for the name; "file" stages the single file OnePath; "hardlink" is
+\* directory staging transferred with hardlink=True (the object shares its inode with the workspace file)
 Add(s, how) ==
     /\ Tick
     /\ how = "upload" => AlgOf[s] = "md5"
@@ -69,7 +71,7 @@ Migrate(s, t) ==
 
 Next ==
     \/ \E p \in Paths, c \in Contents : Edit(p, c)
-    \/ \E s \in Stores, how \in {"stage", "save", "upload", "file"} : Add(s, how)
+    \/ \E s \in Stores, how \in {"stage", "save", "upload", "file", "hardlink"} : Add(s, how)
     \/ \E s \in Stores, t \in Stores : Migrate(s, t)
 
 Init == /\ ws \in [Paths -> Contents] /\ store = [s \in Stores |-> {}] /\ prot = [s \in Stores |-> {}]
@@ -82,5 +84,5 @@ C01_Addressed(s, S) == \A x \in S : x[1] = Dig[AlgOf[s]][x[2]]
 C01_Protected(S, P) == \A x \in S : x[1] \in P
 Inv_Addressed == \A s \in Stores : C01_Addressed(s, store[s])
 Inv_UniqueNames == \A s \in Stores : \A x, y \in store[s] : x[1] = y[1] => x = y
-Inv_Protected == \A s \in Stores : C01_Protected(store[s], prot[s])
+Inv_Protected == \A s \in LocalStores : C01_Protected(store[s], prot[s])
 =============================================================================
